@@ -126,6 +126,10 @@ class NetWorld(World):
         cfg["nsteps"] = min(cfg["nsteps"] * 2, 200)
         cfg["max_nodes"] = r.choice([12, 20, 30])
         cfg["grid"] = r.choice([4, 5, 6])
+        if r.random() < 0.05 and not cfg["road"]:
+            cfg["max_nodes"] = r.choice([70, 130])        # more junctions than any small table or cache would hold
+            cfg["fam"]["grow"] = 6
+            cfg["nsteps"] = 200
 
     # ------------------------------------------------------------------- setup
     def setup(self):
